@@ -1,6 +1,7 @@
 //! E1 scenario driver: `scen <scenario> --seed S --shard i --nshards n --cases N --tier T --out F`
 mod common;
 mod delivery;
+mod fragdirect;
 
 use common::Shard;
 use vcore::Args;
@@ -12,8 +13,19 @@ fn main() {
     let rep = match scenario.as_str() {
         "c01" => delivery::run(&shard, "C01", delivery::Mode::Reliable),
         "c02" => delivery::run(&shard, "C02", delivery::Mode::BestEffort),
-        "c05r" => delivery::run(&shard, "C05", delivery::Mode::FragReliable),
-        "c05b" => delivery::run(&shard, "C05", delivery::Mode::FragBestEffort),
+        "c05" => {
+            // (a) direct micro-driver on all cases, (b) end-to-end on `--e2e` cases
+            let mut rep = vcore::Report::new("C05");
+            fragdirect::run(&shard, &mut rep);
+            let e2e = shard.args.u64("e2e", 0);
+            let mine: Vec<u64> = (0..e2e).filter(|c| c % shard.nshards == shard.shard).collect();
+            let (rel, be): (Vec<u64>, Vec<u64>) = mine.into_iter().partition(|c| (c / shard.nshards) % 2 == 0);
+            if shard.replay.is_none() {
+                delivery::run_into(&shard, &mut rep, delivery::Mode::FragReliable, rel);
+                delivery::run_into(&shard, &mut rep, delivery::Mode::FragBestEffort, be);
+            }
+            rep
+        }
         other => {
             eprintln!("unknown scenario {other}");
             std::process::exit(3);
